@@ -173,7 +173,10 @@ PLANS = {
                       R("general", (200, 4000), (3, 6), None, False, rawmon=[("HBMonitor", "HBMonitor.cfg")]),
                       R("async", (150, 3000), (3, 6), None, False, rawmon=[("HBMonitor", "HBMonitor.cfg")]),
                       R("poll", (150, 3000), (3, 6), None, False, rawmon=[("HBMonitor", "HBMonitor.cfg")]),
-                      R("timed", (100, 3000), (3, 6), None, False, rawmon=[("HBMonitor", "HBMonitor.cfg")])],
+                      R("timed", (100, 3000), (3, 6), None, False, rawmon=[("HBMonitor", "HBMonitor.cfg")]),
+                      R("pairsweep", (0, 0), (1, 1), None, False, programs_fn=freeze_sweep("pair", (14, 400), (40, 60), "pairsweep7", victims=(0, 1), from_phase=3, solo=1),
+                        rawmon=[("HBMonitor", "HBMonitor.cfg")]),
+                      R("discrace", (0, 0), (1, 1), None, False, programs_fn=discrace_sweep(12, (40, 60), "discrace07"), rawmon=[("HBMonitor", "HBMonitor.cfg")])],
                 assume=["happens-before is computed from the orderings actually passed to the atomics on sequentially consistent interleavings; stale relaxed reads of weaker-than-SC executions are not enumerated"]),
     "C08": dict(mc=MC("sync", thorough=["t_sync"]), runs=[R("capacity", (300, 5000), (3, 6), "C08", True), R("general", (150, 2000), (3, 5), "C08", True)]),
     "C10": dict(mc=MC("sync", "timed", "closeclone", thorough=["t_sync"], bounded=["t_timed"]), spec_l2l1=True, runs=[R("close", (300, 5000), (3, 6), "C10", True), R("general", (150, 2000), (3, 5), "C10", True),
